@@ -63,6 +63,6 @@ def main():
     with open(os.path.join(HERE, "MANIFEST.json"), "w") as f:
         json.dump(m, f, indent=1)
 
-HOOK_COMMITS = ["ada2622", "3bcbf39", "75f978c"]
+HOOK_COMMITS = ["ada2622", "3bcbf39", "75f978c", "fb1ed49"]
 if __name__ == "__main__":
     main()
